@@ -456,7 +456,8 @@ class Report:
             "violations": len(self.violations),
             "known_findings": sorted(self.known.keys()),
         }
-        if not getattr(self, "replay_mode", False):
+        # evidence is only written by regular runs (not by replays, and not while a seeded change is tried out)
+        if not getattr(self, "replay_mode", False) and not os.environ.get("VERIF_NO_EVIDENCE"):
             with open(os.path.join(EVIDENCE, self.pid + ".json"), "w") as f:
                 json.dump(ev, f, indent=1, sort_keys=True)
                 f.write("\n")
